@@ -233,7 +233,7 @@ class Facts:
                 self.ne.append(d)
 
     # ------------------------------------------------------------------------------------------
-    def _system(self, extra=()):
+    def _system(self, extra=(), _depth=0):
         """all >= 0 rows: assumed inequalities, both directions of unsubstituted equalities, atom >= 0 for
         the atoms that occur, AlignUp bounds"""
         rows = [self.apply_sub(g) for g in self.ge] + [self.apply_sub(x) for x in extra]
@@ -242,15 +242,27 @@ class Facts:
             if not e2.is_const() or e2.c != 0:
                 rows.append(e2)
                 rows.append(-e2)
-        # L != 0 for an evidently non-negative / non-positive form strengthens to |L| >= 1
+        # L != 0 together with L >= 0 (or <= 0) strengthens to |L| >= 1
+        from math import gcd
         for n in self.ne:
             n2 = self.apply_sub(n)
             if n2.is_const():
                 continue
+            g = 0
+            for _, k in n2.t:
+                g = gcd(g, abs(k))
+            if g > 1 and n2.c % g == 0:
+                n2 = Lin(n2.c // g, [(t, k // g) for t, k in n2.t])
             if self._all_nonneg(n2):
                 rows.append(n2 - 1)
             elif self._all_nonneg(-n2):
                 rows.append(-n2 - 1)
+            elif _depth < 1:
+                base = list(rows)
+                if _fm_infeasible(base + [-n2 - 1]):  # n2 >= 0 is implied
+                    rows.append(n2 - 1)
+                elif _fm_infeasible(base + [n2 - 1]):  # n2 <= 0 is implied
+                    rows.append(-n2 - 1)
         # an eliminated atom is an unsigned quantity too: its replacement is >= 0
         for a, r in self.submap().items():
             if a[0] != "unk":
